@@ -284,11 +284,22 @@ def main():
     for bname, desc in base_tables(thorough):
         for label, expect, fn in edits(desc):
             f = fn(M.spline_file(**desc)); cases.append(("%s: %s" % (bname, label), expect, f, desc))
+    npairs = 0
+    if thorough:
+        # every ordered pair of edits on the small base tables (an edit that no longer finds its extension is skipped)
+        for bname, desc in base_tables(False)[:4]:
+            eds = [e for e in edits(desc) if e[0] != "unchanged" and not e[0].startswith("foreign")]
+            for (l1, x1, f1), (l2, x2, f2) in itertools.permutations(eds, 2):
+                if l1.split(" ")[0] == l2.split(" ")[0] and l1.startswith("ORDER"): continue
+                try: f = f2(f1(M.spline_file(**desc))); f.to_bytes()
+                except Exception: continue
+                if any(len(h.data) != h.npix() for h in f.hdus): continue      # header and data unit must stay consistent (a truncated file is cfitsio's business)
+                cases.append(("%s: %s + %s" % (bname, l1, l2), "any", f, None)); npairs += 1
     t0 = time.time()
     with mp.Pool(min(vlib.NCORES, 16)) as pool: res = pool.map(run_case, cases, chunksize=4)
     flat = [o for r in res for o in r]
     rep.add_group("E3 execution of the GOTO program of the extracted reader and destructor against the cfitsio model (BOUNDED)", len(flat), sum(1 for o in flat if o[1]), time.time() - t0,
-                  bounded="%d files: %d spline tables in the documented layout x header-card edits (ORDERn), resized / dropped / reordered / retyped extensions, bad knot data, reshaped coefficient images, foreign images, odd auxiliary cards" % (len(cases), len(base_tables(thorough))), name="C07-reader")
+                  bounded=("%d ordered pairs of edits on 4 small tables; " % npairs if npairs else "") + "%d files: %d spline tables in the documented layout x header-card edits (ORDERn), resized / dropped / reordered / retyped extensions, bad knot data, reshaped coefficient images, foreign images, odd auxiliary cards" % (len(cases), len(base_tables(thorough))), name="C07-reader")
     # model conformance + replays
     PROBE = build_probe(); fdir = os.path.join(vlib.workdir(), "files"); os.makedirs(fdir, exist_ok=True)
     paths = []
